@@ -37,7 +37,13 @@ def make_tokens(rng, profile):
         T.define("side", "s1", "")
         if "" in pool:
             pool.remove("")
-    if not plain and rng.random() < 0.12:
+    if not plain and rng.random() < 0.2:
+        # a nameplate made of "digits" that are not a decimal number
+        w = rng.choice(["\u00b2", "\u2460", "1\u00b2", "\u0663\u0664"])
+        T.define("name", "x", w)
+        if w in pool:
+            pool.remove(w)
+    elif not plain and rng.random() < 0.12:
         T.define("name", "x", "")        # the empty string is a legal nameplate ...
         if "" in pool:
             pool.remove("")
